@@ -656,6 +656,12 @@ var outOfInt32 = []Val{Int(math.MaxInt32 + 1), Int(math.MinInt32 - 1), Int(math.
 func (g *gen) stmtFail(db *MDB, t *MTable) Stmt {
 	kinds := []string{"unknown-table", "colcount", "type", "range", "size", "dup-table", "upd-size", "upd-type", "upd-range", "del-unknown", "upd-unknown", "create-long-name",
 		"ins-badcol", "upd-badcol", "create-dupcol"}
+	if g.pf.Prop == "C03" || g.pf.Prop == "C14" {
+		// the refusal with the longest tail of log records - an UPDATE that
+		// changes several rows, is refused at a later one and compensates - is
+		// worth more than one lot in fifteen where log cuts and undo are the subject
+		kinds = append(kinds, "upd-size", "upd-size", "upd-size")
+	}
 	for tries := 0; tries < 8; tries++ {
 		kind := kinds[g.r.Intn(len(kinds))]
 		switch kind {
@@ -914,6 +920,35 @@ func (g *gen) stmtFail(db *MDB, t *MTable) Stmt {
 				}
 				if first >= 0 && widest > first && MaxRowBytes-first > 0 {
 					s.Set[0].V = Str(strings.Repeat("w", MaxRowBytes-first))
+				}
+				// more often than not, let the first m rows pass (m up to 8, so that
+				// they lie on two or three leaves) and a still later, wider one fail:
+				// the statement has changed m rows when it is refused, and logs m
+				// changes and m compensations
+				var others []int
+				for _, r := range t.Rows {
+					if t.match(w, r) {
+						others = append(others, other(r))
+					}
+				}
+				if len(others) >= 3 && g.r.Chance(0.7) {
+					hi := len(others) - 1
+					if hi > 8 {
+						hi = 8
+					}
+					m := g.r.Range(2, hi)
+					mx := 0
+					for _, o := range others[:m] {
+						if o > mx {
+							mx = o
+						}
+					}
+					for _, o := range others[m:] {
+						if o > mx && MaxRowBytes-mx > 0 {
+							s.Set[0].V = Str(strings.Repeat("w", MaxRowBytes-mx))
+							break
+						}
+					}
 				}
 			}
 			return s
@@ -1841,9 +1876,23 @@ func Generate(pf *Profile, seed uint64) *Plan {
 				}
 			}
 		}
+		// an UPDATE that changed two or more rows before it was refused logs
+		// its changes and then their compensations, walking back over the same
+		// pages: the longest and oddest batch a statement can append. Such
+		// statements are few (one plan in ten has one), so when a plan has one
+		// it usually gets the first lot of log cuts.
+		var late []int
+		for _, i := range cands {
+			if e := exps[i]; e.FailAt >= 2 && stmts[i].Kind == KUpdate && (len(late) == 0 || late[len(late)-1] != i) {
+				late = append(late, i)
+			}
+		}
 		used := map[int]bool{}
 		for c := 0; c < pf.WalStmts && len(cands) > 0; c++ {
 			i := cands[r.Intn(len(cands))]
+			if c == 0 && len(late) > 0 && r.Chance(0.8) {
+				i = late[r.Intn(len(late))]
+			}
 			if used[i] {
 				continue
 			}
